@@ -153,3 +153,35 @@ pub broadcast axiom fn axiom_prefix_str(s: &str, p: &str)
   ensures #[trigger] pat_prefix::<&str>(s, p) == is_prefix(p.spec_bytes(), s.spec_bytes());
 pub broadcast axiom fn axiom_prefix_ref_str(s: &str, p: &&str)
   ensures #[trigger] pat_prefix::<&&str>(s, p) == is_prefix((*p).spec_bytes(), s.spec_bytes());
+// ---- Rope == Rope: windows of two differently divided texts ----
+pub proof fn lemma_window(d: Seq<(&str, usize)>, i: int, a: int, k: int)
+  requires chunks_wf(d), 0 <= i < d.len(), 0 <= a, 0 <= k, a + k <= clen(d, i)
+  ensures d[i].1 + a + k <= chunks_bytes(d).len(),
+    chunks_bytes(d).subrange(d[i].1 + a, d[i].1 + a + k) == d[i].0.spec_bytes().subrange(a, a + k),
+{
+  lemma_chunk_at(d, i);
+  let b = chunks_bytes(d);
+  assert(b.subrange(d[i].1 + a, d[i].1 + a + k) =~= b.subrange(d[i].1 as int, d[i].1 + clen(d, i)).subrange(a, a + k));
+}
+pub proof fn lemma_eq_extend(x: Seq<u8>, y: Seq<u8>, p: int, k: int)
+  requires 0 <= p, 0 <= k, p + k <= x.len(), p + k <= y.len(), x.subrange(0, p) == y.subrange(0, p)
+  ensures x.subrange(p, p + k) == y.subrange(p, p + k) ==> x.subrange(0, p + k) == y.subrange(0, p + k),
+    x.subrange(p, p + k) != y.subrange(p, p + k) ==> x != y,
+{
+  if x.subrange(p, p + k) == y.subrange(p, p + k) {
+    assert(x.subrange(0, p + k) =~= x.subrange(0, p) + x.subrange(p, p + k));
+    assert(y.subrange(0, p + k) =~= y.subrange(0, p) + y.subrange(p, p + k));
+  }
+}
+pub proof fn lemma_single_chunk(s: &str)
+  ensures chunks_wf(seq![(s, 0usize)]), chunks_bytes(seq![(s, 0usize)]) == s.spec_bytes()
+{
+  reveal(chunks_wf);
+  let d = seq![(s, 0usize)];
+  assert(d.drop_last() =~= Seq::<(&str, usize)>::empty());
+  assert(d.last() == (s, 0usize));
+  assert(chunks_bytes(Seq::<(&str, usize)>::empty()) =~= Seq::<u8>::empty());
+  assert(chunks_bytes(d) == chunks_bytes(d.drop_last()) + d.last().0.spec_bytes());
+  assert(chunks_bytes(d) =~= s.spec_bytes());
+  assert(d.take(0) =~= Seq::<(&str, usize)>::empty());
+}
